@@ -107,7 +107,7 @@ def run(ctx):
 
     seams.template_db()
     n_default = ctx.pick(4, 4)
-    progs_default = progs.programs(n_default, rich=True)
+    progs_default = progs.programs(n_default, rich=True) + progs.sharp_programs()
     if not ctx.quick:
         progs_default += progs.roots(5, rich=False)
     n_dev, bound = ctx.pick((3, 1), (3, 2))
